@@ -21,6 +21,12 @@ CHECKS = {
             "ranges are closed (inclusive of bounding ancestor keys) and 'height unchanged' means at every step since the base version (DESIGN 5)"),
     "C16": (MC, "7.C16", "TLC exhaustive run of Mast.tla (PathReads on the residency-aware transcription) + distinct Load calls of every recorded operation checked by TLC against the stated bounds",
             "distinct node names are counted; heights are the ones the code reports"),
+    "C06": (MC, "7.C06", "TLC enumeration of every ordered pair of trees over the bounded universe on MastDiff.tla (EntryPrefix in every intermediate state of the stepwise machine, EntryDiffExact) + TLC validation of recorded DiffIter/StartDiff/NextEntry runs, early stops and callback failures against ModelDiff (TraceDiff.tla)",
+            "the maps of a recorded pair come from the driver's bookkeeping; exhaustive only within the constants"),
+    "C07": (MC, "7.C07", "TLC enumeration of every ordered pair on MastDiff.tla (LinksWithin, LinksComplete) + TLC validation of recorded DiffLinks callbacks against the reachable sets of the decoded versions, and a replica store filled with old + added nodes must load the new version",
+            "hash injectivity; reachable sets come from the harness's independent decoders"),
+    "C15": (MC, "7.C15", "TLC enumeration of every ordered pair on MastDiff.tla with load accounting (ReadBound, SameNoLoads) + distinct Load calls of recorded diffs of reloaded versions (small and large trees) checked by TLC against 2*D+2",
+            "distinct node names are counted, no cache attached; D of large pairs is computed by the harness"),
 }
 
 NOT_YET = {
